@@ -37,6 +37,7 @@ mutual
   inductive HOp
     | path | method | query (k : String) | cookie (k : String)
     | header (name wsgiKey : String) | envGet (k : String) | body | form (k : String) | url
+    | file (name field : String)       -- `request.files.get(name)` and one attribute of the upload
     | status (code : Int) (line : String) | rdStatus
     | setHdr (k v : String) | addHdr (k v : String) | rdHdr (k : String)
     | setCookie (k rendered : String) | ctype (v : String)
@@ -238,20 +239,27 @@ def reqBodyObj (a : AppId) (o : Obj) (d : Nat) (k : PVal → Prog) : Prog :=
       .step a (.dOp rTmp (.get "#body")) fun r => ret (resVal r))
     k
 
-/-- `request.POST` for a body that is neither multipart nor JSON -/
+/-- `request.POST`: the multipart branch (the parts are parsed while `_body` reads the stream) or
+the urlencoded one (`_get_body_string`); JSON bodies are read through `request.json` -/
 def reqPost (a : AppId) (o : Obj) (d : Nat) (k : PVal → Prog) : Prog :=
   cacheIn a o d "ombott.request.post"
     (fun ret =>
       -- env = self.environ; files = env['ombott.request.files'] = ...
       .step a (.fget o "environ" rWsgiHd) fun _ =>
       .step a (.dOp rWsgiHd (.set "ombott.request.files" (.str "<files>"))) fun _ =>
-      reqContentType a o (d + 1) fun _ =>
-      -- self._get_body_string(): self._body.seek(0); read = self._body.read; self.content_length
-      reqBodyObj a o (d + 1) fun _ =>
-      reqBodyObj a o (d + 1) fun _ =>
-      reqContentLength a o (d + 1) fun _ =>
-      .step a (.dOp rWsgiHd (.set "ombott.request.forms" (.str "<forms>"))) fun _ =>
-      ret (.str "<post>"))
+      reqContentType a o (d + 1) fun ct =>
+      if (strOf ct).startsWith "multipart/" then
+        -- forms = env['ombott.request.forms'] = ...; body = self.body; self._collect_multipart(...)
+        .step a (.dOp rWsgiHd (.set "ombott.request.forms" (.str "<forms>"))) fun _ =>
+        reqBodyObj a o (d + 1) fun _ =>
+        ret (.str "<post>")
+      else
+        -- self._get_body_string(): self._body.seek(0); read = self._body.read; self.content_length
+        reqBodyObj a o (d + 1) fun _ =>
+        reqBodyObj a o (d + 1) fun _ =>
+        reqContentLength a o (d + 1) fun _ =>
+        .step a (.dOp rWsgiHd (.set "ombott.request.forms" (.str "<forms>"))) fun _ =>
+        ret (.str "<post>"))
     k
 
 /-- `request.url` (the text is the pseudo key `#url`) -/
@@ -537,6 +545,14 @@ def hop (nest : Req → Prog → Prog) (a : AppId) (cs : List Nat) : HOp → (Li
         -- return self.environ['ombott.request.forms']
         environGet a .request "ombott.request.forms" fun v => ret v)
       fun _ => .step a (.dOp (rCache 0) (.get ("#f:" ++ f))) fun r => obsRead a (resVal r) (k cs)
+  | .file name field, k =>
+    cacheIn a .request 0 "ombott.request.files"
+      (fun ret =>
+        reqPost a .request 1 fun _ =>
+        -- return self.environ['ombott.request.files']
+        environGet a .request "ombott.request.files" fun v => ret v)
+      fun _ => .step a (.dOp (rCache 0) (.get ("#file:" ++ name ++ ":" ++ field))) fun r =>
+        obsRead a (resVal r) (k cs)
   | .url, k => reqUrl a .request 0 fun v => obsRead a v (k cs)
   | .status code line, k => setStatus a code line (k cs)
   | .rdStatus, k => .step a (.fget .response "_status_line" rTmp) fun r => obsRead a (resVal r) (k cs)
